@@ -152,6 +152,13 @@ func runC43(c *Ctx) {
 			case *ast.CallExpr:
 				if fn := callee(sinfo, x); fn != nil && fn.Name() == "NewRequest" && len(x.Args) == 5 {
 					sentArg = types.ExprString(x.Args[3])
+					if id, ok := ast.Unparen(x.Args[3]).(*ast.Ident); ok {
+						if def := singleLocalDefIn(sinfo, sr.Decl.Body, sinfo.ObjectOf(id)); def != nil {
+							defShape = exprShape(sinfo, def)
+						}
+					} else {
+						defShape = exprShape(sinfo, x.Args[3])
+					}
 					if !isFieldSel(sinfo, x.Args[2], ccConfirmed) {
 						c.Bad("grant/confirmed-arg", "a Request carries the consumer's confirmation watermark", c.P.Pos(x.Pos()), "third argument of NewRequest is "+types.ExprString(x.Args[2]))
 					} else {
@@ -162,9 +169,6 @@ func runC43(c *Ctx) {
 				if len(x.Lhs) == 1 && len(x.Rhs) == 1 {
 					if selField(sinfo, x.Lhs[0]) == ccUpTo {
 						recorded = types.ExprString(x.Rhs[0])
-					}
-					if id, ok := x.Lhs[0].(*ast.Ident); ok && x.Tok == token.DEFINE && id.Name == sentArgOr(sentArg, "upTo") {
-						defShape = exprShape(sinfo, x.Rhs[0])
 					}
 				}
 			}
